@@ -87,6 +87,42 @@ def check_case(rng, X, desc):
     bad += well_posed(X, mu, S, nu)
     if bad:
         return bad, float(nu)
+    # the routine is handed the caller's own array (no defensive copy by the harness) in row-major, column-major and strided
+    # layout: the data must come back untouched and the estimate must not depend on the layout
+    from tempest.student import fit_mvstud as _fit
+    for lay in ("C", "F", "strided"):
+        if lay == "C":
+            Xl = np.ascontiguousarray(X).copy()
+        elif lay == "F":
+            Xl = np.asfortranarray(X).copy(order="F")
+        else:
+            big = np.zeros((2 * X.shape[0], 2 * d))
+            Xl = big[::2, ::2]
+            Xl[...] = X
+        keep = np.array(Xl, copy=True)
+        try:
+            with contextlib.redirect_stdout(io.StringIO()), np.errstate(all="ignore"):
+                mu_l, S_l, nu_l = _fit(Xl)
+        except Exception as e:
+            bad.append((f"fit-exception-layout-{lay}", f"fit_mvstud raised {type(e).__name__}: {e} on a {lay} array"))
+            continue
+        # the caller fits the SAME array object again (e.g. after an equivariance transform in place, or simply twice): the estimate
+        # is a function of the data the caller sees
+        try:
+            with contextlib.redirect_stdout(io.StringIO()), np.errstate(all="ignore"):
+                mu_2, S_2, nu_2 = _fit(Xl)
+            S_2 = np.asarray(S_2).reshape(d, d)
+            sd0 = np.sqrt(np.diag(S))
+            if float(np.max(np.abs(np.asarray(mu_2) - np.asarray(mu_l)) / sd0)) > 1e-9 or float(np.max(np.abs(S_2 - np.asarray(S_l).reshape(d, d)) / np.outer(sd0, sd0))) > 1e-9:
+                bad.append(("refit-differs", f"fitting the same ({lay}-layout) array object twice gives two estimates (rows changed in the caller's array: "
+                            f"{int(np.sum(np.any(Xl != keep, axis=1)))} of {len(keep)})"))
+        except Exception as e:
+            bad.append((f"fit-exception-layout-{lay}", f"second fit of the same array raised {type(e).__name__}: {e}"))
+        S_l = np.asarray(S_l).reshape(d, d)
+        sdl = np.sqrt(np.diag(S))
+        if float(np.max(np.abs(np.asarray(mu_l) - mu) / sdl)) > 1e-9 or float(np.max(np.abs(S_l - S) / np.outer(sdl, sdl))) > 1e-9:
+            bad.append(("layout-dependent", f"fit_mvstud on a {lay}-layout copy of the same data gives another estimate"))
+    desc["layouts"] = 3
     # equivariance pairs
     s = 10.0 ** rng.uniform(-6, 6, d)
     t = rng.standard_normal(d) * 10 ** rng.uniform(-1, 2)
@@ -316,6 +352,7 @@ def run():
             ck.case(desc, nontrivial=desc["kind"] != "gauss")
             ck.event("fit_mvstud well-posedness + 3 equivariance pairs")
             ck.event("ModeStatistics.from_global/from_particles checked", 3)
+            ck.event("fits on the caller's own array in C / Fortran / strided layout (fitted twice)", desc.get("layouts", 0))
             ck.event("mode fits on particles squeezed into a tiny part of the cube compared with the squeezed image", desc.get("squeezed", 0))
             ck.event("mode-statistics calls with a configured dof fallback (all paths incl. collapsed small labels)", desc.get("fallback_calls", 0))
             if nu is not None and np.isfinite(nu):
